@@ -829,7 +829,9 @@ class Engine:
                 return VInt(self.pymod(x, y))
             if isinstance(op, ast.Div):
                 self.oblige(st, "divisor is non-zero", y != 0, "safety", node)
-                return VFloat(z3.ToReal(x) / z3.ToReal(y))
+                yr = z3.RealVal(y.as_long()) if z3.is_int_value(y) else z3.ToReal(y)
+                xr = z3.RealVal(x.as_long()) if z3.is_int_value(x) else z3.ToReal(x)
+                return VFloat(xr / yr)
             if isinstance(op, ast.Pow):
                 if z3.is_int_value(y) and 0 <= y.as_long() <= 4:
                     r = z3.IntVal(1)
